@@ -383,7 +383,11 @@ func init() {
 				d := ir.DescN(st.Val, 10)
 				switch {
 				case d == "param#4":
-					c.OK("C30c/replaceBlocksQueue/no-overlap=>whole-new-queue", c.P.InstrPos(st), "")
+					if ir.HasFact(ir.GuardFacts(st), "(param#1 <= const(0))") {
+						c.OK("C30c/replaceBlocksQueue/no-overlap=>whole-new-queue", c.P.InstrPos(st), "under newQueueStartIndex <= 0")
+					} else {
+						c.Fail("C30c/replaceBlocksQueue/no-overlap=>whole-new-queue", c.P.InstrPos(st), "the queue is replaced by the new-blocks buffer as a whole although an overlap with the stored blocks may have been found (not under newQueueStartIndex <= 0): the kept window is then whatever was copied into that buffer, not old[start:end] followed by new[newStart:]")
+					}
 				case strings.HasPrefix(d, "call(builtin:append)(") && strings.Contains(d, "recv.blocksQueue"):
 					// slice bounds: old[start:end], new[newStart:]
 					okBounds := false
@@ -403,7 +407,9 @@ func init() {
 					c.Fail("C30c/replaceBlocksQueue/kept-window=old[start:end]+new[newStart:]", c.P.InstrPos(st), "the queue is rebuilt from "+trunc(d, 160)+", not from the overlap window found by readHashes followed by the newly fetched blocks")
 				}
 			})
-			if n != 2 {
+			if n == 1 {
+				c.Fail("C30c/replaceBlocksQueue/kept-window=old[start:end]+new[newStart:]", c.P.Pos(rq.Pos()), "replaceBlocksQueue no longer builds the queue as the overlap window old[start:end] followed by new[newStart:] (one assignment of blocksQueue left)")
+			} else if n != 2 {
 				c.Undecided("C30c: expected two assignments of blocksQueue in replaceBlocksQueue, found %d", n)
 			}
 		}
